@@ -198,6 +198,20 @@ def bad_files(reg, rng, tokens):
             lines.append((good_line(i), False))
             lines.append((bad, True))
         files.append(("bad_" + kind, lines))
+    # 'using MAJOR.MINOR[.PATCH]': the boundary of OptionsCore.tla's IsVersion (two or three parts of 1..4 digits) from both
+    # sides - every part position x every length up to 12 x digit fillings, incl. the values around INT_MAX
+    lines = []
+    fills = lambda n: {"9" * n, "1" + "0" * (n - 1), "0" * n} | ({"2147483647", "2147483648", "4000000000"} if n == 10 else set())
+    for nparts in (1, 2, 3, 4):
+        for pos in range(nparts):
+            for n in range(1, 13):
+                for f in sorted(fills(n)):
+                    parts = ["0", "78", "1", "2"][:nparts]
+                    parts[pos] = f
+                    bad = not (nparts in (2, 3) and n <= 4)
+                    lines.append((good_line(len(lines)), False))
+                    lines.append(("using " + ".".join(parts), bad))
+    files.append(("bad_version", lines))
     return files
 
 
